@@ -83,7 +83,7 @@ PLAN["C17"] = dict(
     oracle="is_good() and every element <= 0x2FFFF for every string handed out; integer constructors element-wise x <= 0x2FFFF ? x : 0xFFFD; text constructors exact when all characters are in range (in-range characters kept in order otherwise); parse_smt_literal == R8 on in-range texts; every such string s: ReManager::str(s) does not panic and str_in_re(s, str(s))",
     assumptions=COMMON_ASSUMPTIONS + ["what an out-of-range character of a text becomes is not prescribed by the property beyond well-formedness"],
     quick=dict(proptest={"rel": (12, 8000), "dbg": (4, 2500)}),
-    thorough=dict(proptest={"rel": (16, 150000), "dbg": (8, 50000)}),
+    thorough=dict(proptest={"rel": (48, 40000), "dbg": (16, 20000)}),
 )
 
 RX_GEN = ("generation: proptest byte tapes decoded into straight-line regex programs (R1) of 1-%d instructions over all public constructors "
@@ -154,11 +154,11 @@ AUTO_ASSUME = COMMON_ASSUMPTIONS + [
 ]
 
 PLAN["C04"] = dict(
-    rule=AUTO_GEN + "; the same source is built twice (A kept, B minimised). Non-trivial = A has two equivalent states (Moore refinement through next() finds fewer classes than states) and >= 2 classes remain; distinct = digest of the source.",
+    rule="enumeration: 10 scale cases (two states that differ only on alphabet classes of index beyond 2^16; counter automata modulo n with m labelled characters and every state duplicated, up to 66000 labelled characters; automata with up to 66000 equivalent sinks and the accepting state at the largest id) whose Myhill-Nerode index is known in closed form; " + AUTO_GEN + "; the same source is built twice (A kept, B minimised). Non-trivial = A has two equivalent states (Moore refinement through next() finds fewer classes than states) and >= 2 classes remain; distinct = digest of the source.",
     oracle="independent Moore partition refinement written in the harness, run through next() only: L(B) = L(A) = reference language by exact product (R5); refinement of B yields B.num_states() classes (no two equivalent states); when every state of A is reachable B.num_states() equals the size of the minimal complete reference DFA (Myhill-Nerode index); a second minimize changes nothing; initial state, is_final, num_final_states, final_states consistent",
     assumptions=AUTO_ASSUME,
-    quick=dict(proptest={"rel": (12, 40000), "dbg": (4, 8000)}),
-    thorough=dict(proptest={"rel": (16, 250000), "dbg": (8, 60000)}),
+    quick=dict(enum={"rel": 4, "dbg": 4}, proptest={"rel": (12, 40000), "dbg": (4, 8000)}),
+    thorough=dict(enum={"rel": 4, "dbg": 4}, proptest={"rel": (16, 250000), "dbg": (8, 60000)}),
 )
 
 PLAN["C13"] = dict(
